@@ -25,6 +25,8 @@ from . import shrink as shrinker
 
 VERIF = os.path.dirname(os.path.dirname(os.path.abspath(__file__)))
 REPO = os.environ.get("VERIF_REPO", "/repo")
+# where evidence/ and replays/ are written (the mutant self-test redirects it)
+OUT = os.environ.get("VERIF_OUT", VERIF)
 RUN_TIMEOUT_S = int(os.environ.get("VERIF_RUN_TIMEOUT_S", "60"))
 CHECK_VERSION = 1
 
@@ -155,7 +157,7 @@ def load_known(cid):
 
 def write_replay(cid, seed, config, index, case, signature, detail, events,
                  shrunk_from=None):
-    d = os.path.join(VERIF, "replays", cid)
+    d = os.path.join(OUT, "replays", cid)
     os.makedirs(d, exist_ok=True)
     body = {"property": cid, "check_version": CHECK_VERSION,
             "verif_seed": seed, "config": config, "run_index": index,
@@ -469,7 +471,7 @@ def confirm_shrink_write(check, cid, seed, config, i, case, sig, detail):
 
 def write_evidence(check, cid, tier, seed, agg, wall, selftest, reported,
                    known_hit, jobs):
-    os.makedirs(os.path.join(VERIF, "evidence"), exist_ok=True)
+    os.makedirs(os.path.join(OUT, "evidence"), exist_ok=True)
     cov = {
         "evaluations": agg["n"],
         "distinct_nontrivial": len(agg["shapes"]),
@@ -500,7 +502,7 @@ def write_evidence(check, cid, tier, seed, agg, wall, selftest, reported,
           "assumptions": list(getattr(check, "ASSUMPTIONS", [])),
           "wall_s": round(wall, 2),
           "violations": len(reported)}
-    path = os.path.join(VERIF, "evidence", cid + ".json")
+    path = os.path.join(OUT, "evidence", cid + ".json")
     tmp = path + ".tmp"
     with open(tmp, "w") as f:
         json.dump(ev, f, indent=1, sort_keys=True, default=str)
